@@ -59,6 +59,11 @@ func (g *gen) operand() string {
 	switch k := g.n(100); {
 	case k < 50:
 		return g.file()
+	case k < 56: // special variables the bookkeeping / the splitting reads (modelled: FILENAME, single-byte FS)
+		if g.n(2) == 0 {
+			return "FILENAME=" + []string{"zz", "k1", "-"}[g.n(3)]
+		}
+		return "FS=" + g.fsVal()
 	case k < 68:
 		return fmt.Sprintf("v%d=%s", g.n(3), g.word())
 	case k < 71:
@@ -78,6 +83,17 @@ func (g *gen) operand() string {
 	default:
 		return "v1=a=b"
 	}
+}
+
+// fsVal: a single-byte FS (letters of the record alphabet split the generated records), or the default
+func (g *gen) fsVal() string { return []string{"x", "a", "b", ":", " ", "y"}[g.n(6)] }
+
+// spOp: FILENAME = … / FS = … by the program
+func (g *gen) spOp() Op {
+	if g.n(2) == 0 {
+		return Op{K: "sf", S: []string{"zz", "k2", "-"}[g.n(3)]}
+	}
+	return Op{K: "sfs", S: g.fsVal()}
 }
 
 func (g *gen) operands() []string {
@@ -148,6 +164,21 @@ func (g *gen) traceCase() *Case {
 		cs.HasEnd = true
 		cs.End = []Op{{K: "e", N: 900}}
 	}
+	if g.n(4) == 0 { // FILENAME / FS assigned in BEGIN, before any operand is looked at
+		for k := 1 + g.n(2); k > 0; k-- {
+			cs.Begin = append(cs.Begin, g.spOp())
+		}
+		cs.Begin = append(cs.Begin, Op{K: "e", N: 800})
+		if g.n(2) == 0 { // … with no input operand at all: stdin must still be read
+			var args []string
+			for _, a := range cs.Args {
+				if a == "" || reAssign.MatchString(a) {
+					args = append(args, a)
+				}
+			}
+			cs.Args = args
+		}
+	}
 	return cs
 }
 
@@ -178,6 +209,9 @@ func (g *gen) argvCase() *Case {
 		} else {
 			cs.Begin = append(cs.Begin, Op{K: "sa", N: 1 + g.n(n+2), S: g.operand()})
 		}
+	}
+	if g.n(4) == 0 {
+		cs.Begin = append(cs.Begin, g.spOp())
 	}
 	if g.n(3) == 0 {
 		cs.Begin = append(cs.Begin, Op{K: "e", N: 800})
@@ -237,6 +271,8 @@ func (g *gen) ops(where, depth int, base int) []Op {
 			ops = append(ops, Op{K: "i", C: g.cond(0), Body: g.ops(where, depth+1, base)})
 		case r < 95:
 			ops = append(ops, Op{K: "cl", F: g.file()})
+		case r < 96 && g.n(2) == 0:
+			ops = append(ops, g.spOp())
 		case r < 97:
 			ops = append(ops, Op{K: "sa", N: 1 + g.n(len0(g)+2), S: g.operand()})
 		case r < 98:
